@@ -2,7 +2,7 @@
 from .mcommon import calls_named, in_cycle, is_dyn_call
 from .roles import adt_of, _one
 from .facts import strip_generics, Operand, Place
-from .analysis import sources
+from .analysis import sources, result_matches
 from .engine import Undecided
 
 TECHNIQUE = 'call-context rule over closures (a caller-supplied FnOnce is invoked only inside a closure passed to Runtime::spawn_blocking*), drop-site / Option::take inventory for the wrapped value, match tables of the error mapping, field-type shape; on mir_built with resolved callees'
@@ -207,6 +207,17 @@ def run(ctx):
     if sb is not None and not no_tokio:
         maps = [cb for blk, cb in closure_args_of(prog, sb, ['std::result::Result::map_err'])]
         made = [s.rv.j['variant'] for cb in maps for blk in cb.blocks for s in blk.stmts if s.kind == 'assign' and s.rv.kind == 'agg' and s.rv.j.get('adt') == 'deadpool_runtime::SpawnBlockingError']
+        # the same mapping written as a match on the awaited JoinHandle: Err(e) => Err(Panic(e.into_panic()))
+        san = prog.an(sb)
+        in_err = set()
+        for sw_, okr, err in result_matches(san, lambda n: n == 'tokio::task::spawn_blocking'):
+            in_err |= err
+        for blk in sb.blocks:
+            if blk.cleanup:
+                continue
+            for s in blk.stmts:
+                if s.kind == 'assign' and s.rv.kind == 'agg' and s.rv.j.get('adt') == 'deadpool_runtime::SpawnBlockingError':
+                    made.append(s.rv.j['variant'] if blk.idx in in_err else s.rv.j['variant'] + ' (outside the Err arm)')
         ctx.ob('R14.5', 'a join error maps to SpawnBlockingError::Panic', made == ['Panic'], ctx.where(sb), str(made), construct='runtime:join-error')
 
     ctx.not_decided += ['which OS thread tokio picks and the timing between the async thread and the blocking pool (tokio)',
